@@ -115,6 +115,8 @@ def all_recognised(spec):
 def gen_via(r):
     via = r.weighted([(3, 'dict'), (3, 'file'), (2, 'cycled')])
     d = {'via': via}
+    if via != 'dict' and r.chance(0.7):
+        d['tdda_name'] = r.pick(['constraints.tdda', 'a.tdda', 'b.tdda'])
     if via == 'cycled':
         d['cycles'] = r.randint(2, 4)
     return d
@@ -427,7 +429,9 @@ def materialise(ctx, op, rec):
     via = op.get('via', 'dict')
     if via == 'dict':
         return cs_dict(rec)
-    path = ctx.W.path('data', 'cs_%d.tdda' % op['i'])
+    # a few shared file names: real users keep rewriting one constraints
+    # file, so a path is often loaded, rewritten and loaded again
+    path = ctx.W.path('data', op.get('tdda_name') or 'cs_%d.tdda' % op['i'])
     text = cs_text(rec, tddafile=path)
     with io.open(path, 'w', encoding='utf-8') as f:
         f.write(text)
